@@ -603,9 +603,34 @@ func checkEmptyForestHasNoPositions(p *Program, r *Report, rule string, e *ssa.F
 	reach := p.StaticReach(e)
 	reach[e] = true
 	core := resolveVerifyAnchors(p).core
+	// the core and the helpers only the core (or such a helper) calls
+	coreOnly := map[*ssa.Function]bool{core: true}
+	for changed := true; changed; {
+		changed = false
+		for _, g := range p.Funcs {
+			if coreOnly[g] || g.Blocks == nil || g.Parent() != nil {
+				continue
+			}
+			callers, all := 0, true
+			for _, h := range p.Funcs {
+				for _, sc := range callsIn(p, h) {
+					if sc.call.Common().StaticCallee() == g {
+						callers++
+						if !coreOnly[h] {
+							all = false
+						}
+					}
+				}
+			}
+			if callers > 0 && all && g.Object() != nil && !g.Object().Exported() {
+				coreOnly[g] = true
+				changed = true
+			}
+		}
+	}
 	n := 0
 	for _, g := range sortedFuncs(p, reach) {
-		if g.Blocks == nil || !p.owns(g) || g == core {
+		if g.Blocks == nil || !p.owns(g) || coreOnly[g] {
 			// in the hashing core the bound only limits a claimed position; a position wrongly let
 			// through is refused by the root match, nothing is kept on its strength
 			continue
